@@ -471,9 +471,11 @@ def rule_route(ctx):
     fc = ctx.fn(f"{PART}.__call__")
     c = ctx.cfg(fc)
     ps = fc.params()
-    kt = [t for t in c.nodes if t.kind == "test" and is_none_test(t.ast) is not None and unparse(is_none_test(t.ast)) == ps[1]]
-    kt = ctx.one(kt, "`key is None` test")
-    keyed = c.reachable([m for m, l in kt.succ if l == "F"], include_src=True)
+    from ..rulekit import none_tests
+    kts = none_tests(c, ps[1])
+    ctx.anchor(len(kts) == 1, f"exactly one None-ness test of `{ps[1]}` (found {len(kts)})")
+    kt, _l_none, l_keyed = kts[0]
+    keyed = c.reachable([m for m, l in kt.succ if l == l_keyed], include_src=True)
     reads = set()
     for n in keyed:
         if n.ast is not None and n.kind in ("stmt", "return", "call", "test", "store"):
@@ -481,25 +483,20 @@ def rule_route(ctx):
                 if isinstance(x, ast.Name):
                     reads.add(x.id)
     ctx.ob(R, fc, kt, ps[3] not in reads and "random" not in reads, f"keyed path reads {sorted(reads & {ps[3], 'random'})}: the partition of a keyed record depends on availability / chance", text="keyed-independent")
-    # unkeyed: evaluate the `key is None` arm for an empty and a non-empty `available`
+    # unkeyed: evaluate the body with key = None for an empty and a non-empty `available`
     from .. import finite
-    arm = None
-    for n in ast.walk(fc.node):
-        if isinstance(n, ast.If) and is_none_test(n.test) is not None and unparse(is_none_test(n.test)) == ps[1]:
-            arm = n.body
-        elif isinstance(n, ast.If) and is_none_test(n.test, negate=True) is not None and unparse(is_none_test(n.test, negate=True)) == ps[1]:
-            arm = n.orelse or None
-    ok = arm is not None
-    if ok:
-        got = {}
-        for label, av in (("empty", []), ("some", ["A1"])):
-            env = {ps[3]: av, ps[2]: ["P0", "P1"], "__calls__": {"random.choice": lambda x: ("choice", tuple(x))}}
-            try:
-                finite.run(arm, env, set())
-                got[label] = None
-            except finite._Return as r:
-                got[label] = r.v
-        ok = got == {"empty": ("choice", ("P0", "P1")), "some": ("choice", ("A1",))}
+    got = {}
+    ok = True
+    for label, av in (("empty", []), ("some", ["A1"])):
+        env = {ps[1]: None, ps[3]: av, ps[2]: ["P0", "P1"], "__calls__": {"random.choice": lambda x: ("choice", tuple(x))}}
+        try:
+            finite.run(fc.node.body, env, set())
+            got[label] = None
+        except finite._Return as r:
+            got[label] = r.v
+        except Exception as e:      # a construct the finite evaluator does not understand: cannot decide
+            raise AnalysisError(f"route: cannot evaluate {fc.qualname} for key=None: {e}")
+    ok = got == {"empty": ("choice", ("P0", "P1")), "some": ("choice", ("A1",))}
     ctx.ob(R, fc, kt, ok, "unkeyed records do not go to an available partition whenever one is available", text="unkeyed-available")
     fp = ctx.fn("aiokafka.producer.producer.AIOKafkaProducer._partition")
     cp = ctx.cfg(fp)
